@@ -120,6 +120,30 @@ Theorem C19_type_name_determines_wire : forall t1 t2,
 Proof. exact type_name_determines_wire. Qed.
 Print Assumptions C19_type_name_determines_wire.
 
+(* The client-side table (name in "types" -> how to decode the cells) agrees with what the
+   encoder puts on the wire for EVERY column type, parameterised decimals and unknown types
+   included.  (Implies C19_type_name_determines_wire.) *)
+Theorem C19_type_name_decodes : forall t, class_of_name (type_name t) = wire_class t.
+Proof. exact class_of_name_type_name. Qed.
+Print Assumptions C19_type_name_decodes.
+
+(* The repaired BLOB cell (writeJSONBlob, fixes/C19_json_blob_text_form.patch): for every
+   byte string the token is well-formed ASCII JSON, the RFC 8259 scanner returns DuckDB's text
+   form of the blob, and the parser of that text form returns the blob. *)
+Theorem C19_json_blob_text_form : forall b t, Forall (fun x => x < 256) b ->
+  json_scan (json_cell_m BlobDuckText TBin (VBytes b) ++ t) = Some (blob_text b, t)
+  /\ blob_text_decode (blob_text b) = Some b
+  /\ utf8_valid (json_cell_m BlobDuckText TBin (VBytes b)) = true
+  /\ no_ctl (json_cell_m BlobDuckText TBin (VBytes b)) = true.
+Proof. exact json_blob_text_cell. Qed.
+Print Assumptions C19_json_blob_text_form.
+
+Example C19_blob_text_example :
+  json_cell_m BlobDuckText TBin (VBytes [255; 0; 92; 39; 34; 65; 126; 127; 32])
+  = [34; 92;92;120;70;70; 92;92;120;48;48; 92;92;120;53;67; 92;92;120;50;55; 92;92;120;50;50; 65; 126; 92;92;120;55;70; 32; 34]
+  /\ json_cell_m BlobRaw TBin (VBytes [255]) = [34; 255; 34].
+Proof. split; reflexivity. Qed.
+
 (* ---- non-vacuity / necessity examples ---------------------------------------------- *)
 
 (* quotes, backslash, every kind of control byte, DEL, U+2028, an invalid byte *)
@@ -158,3 +182,7 @@ Example C19_limit_example :
   /\ fst (drain 3 0 [[1;2];[];[3;4];[5]]) = [[1;2];[];[3]]
   /\ fst (drain 0 0 [[1;2];[];[3;4];[5]]) = [[1;2];[];[3;4];[5]].
 Proof. repeat split. Qed.
+
+(* tooling sanity: the packed literals of the case files unpack to the bytes they denote *)
+Example C19_pk_all_bytes : let l := map N.of_nat (seq 0 256) in pk (pack_pos l) = l /\ pk (pack_pos (rev l)) = rev l /\ pk 1 = [].
+Proof. vm_compute. repeat split. Qed.
